@@ -73,19 +73,38 @@ def fault_positions(R0):
     return out
 
 
+def reenter_positions(base, R0):
+    """Re-entrancy from user code: from inside the subscriber's own k-th on_next / terminal callback the (hot, still live)
+    main source synchronously emits one more element or a terminal."""
+    if base[1] != "hot" or getattr(R0.main, "done", True) and not R0.rec.counts["N"]:
+        return []
+    out = []
+    c = R0.rec.counts
+    for emit in ("N", "C", "E"):
+        if c["N"]:
+            out.append({"reenter": ("N", 1, emit)})
+        if c["C"]:
+            out.append({"reenter": ("C", 1, emit)})
+        if c["E"]:
+            out.append({"reenter": ("E", 1, emit)})
+    return out
+
+
 def signature(base, problem, dev):
     f = "nofault"
     if dev.get("arm"):
         f = "fault:" + dev["arm"][0]
     elif dev.get("rec_fault"):
         f = "fault:subscriber." + dev["rec_fault"][0]
+    elif dev.get("reenter"):
+        f = "reenter:in-%s-emit-%s" % (dev["reenter"][0], dev["reenter"][2])
     return f"{pg.pname(base[0])}|{problem[0]}|{base[1]}|{f}"
 
 
 def one(part, base, seed, dev, R):
     problems = judge(base, R)
     notified = any(r.log for r in pg.recorders(R))
-    fault_ok = (not dev) or bool(R.env.injected)
+    fault_ok = (not dev) or bool(R.env.injected) or bool(dev.get("reenter") and R.reentered)
     rogue_ok = base[1] != "rogue" or R.status == "ok"
     nontrivial = notified and fault_ok and rogue_ok and R.status == "ok"
     outcome = (R.status, R.rec.kinds(), tuple(r.kinds() for r in R.inner if r is not None)[:6], bool(R.env.injected), len(R.env.sched.escaped) > 0)
@@ -97,7 +116,7 @@ def one(part, base, seed, dev, R):
             part.notes.append(f"run exceeded the action budget: {pg.descriptor(base, seed, **dev)}")
     if R.drain == "budget":
         part.count("runs_with_endless_activity_after_horizon")
-    if dev and not R.env.injected:
+    if dev and not R.env.injected and not dev.get("reenter"):
         part.count("fault_not_reached")
     for p in problems[:1]:
         part.violation(signature(base, p, dev), f"{pg.pname(base[0])} over {base[1]} {base[2]} (inner policy {base[3]}, deviation {dev or 'none'}): {p[2]}",
@@ -106,12 +125,12 @@ def one(part, base, seed, dev, R):
 
 def shard(part: core.Part, shard_i, nshards, tier, seed, deadline, phase):
     clock = pg.Clock(deadline)
-    gen = pg.base_cases(phase, kinds=("cold", "hot", "rogue"), tl_names_by_depth={3: D3_TLS} if D3_TLS else None)
+    gen = pg.base_cases(phase, kinds=("cold", "hot", "rogue"), tl_names_by_depth={3: D3_TLS} if D3_TLS else None, include_sync=True)
     for base in core.shard_iter(gen, shard_i, nshards):
         R0 = pg.run(base, seed)
         one(part, base, seed, {}, R0)
         part.count("base_cases")
-        for dev in fault_positions(R0):
+        for dev in fault_positions(R0) + reenter_positions(base, R0):
             if clock.expired():
                 part.complete = False
                 return
@@ -119,7 +138,7 @@ def shard(part: core.Part, shard_i, nshards, tier, seed, deadline, phase):
 
 
 def run(ctx: core.Ctx):
-    phases = pg.QUICK if ctx.tier == "quick" else pg.THOROUGH
+    phases = ("d0",) + tuple(pg.QUICK if ctx.tier == "quick" else pg.THOROUGH)
     use, skipped = pg.entries()
     ctx.bounds = {"phases": list(phases), "catalogue_entries": len(use), "core_entries": sum(1 for e in use if "core" in e.flags),
                   "sources": ["cold", "hot", "rogue"], "timelines": "catalogue.TLS: 11 conforming (cold, hot) + 3 non-conforming (rogue), at every depth",
